@@ -23,7 +23,7 @@ FRESH = [("zqc07a", "length"), ("zqc07b", "length"), ("zqc07c", "mass"), ("zqc07
          ("zqc07f", "time"), ("zqc07g", "energy")]
 PRODUCT_DEFINED = ["horsepower", "donkeypower", "pound-force", "acre", "poundal", "British thermal unit", "electron-volt",
                    "ton of refrigeration", "boiler horsepower", "knot", "gallon", "newton", "joule", "watt", "pascal"]
-ALLOWED = {"convert": {"ConversionNotFound"}, "add": {"ConversionNotFound"}, "sub": {"ConversionNotFound"},
+ALLOWED = {"lt_level": {"TypeError"}, "convert": {"ConversionNotFound"}, "add": {"ConversionNotFound"}, "sub": {"ConversionNotFound"},
            "eq": set(), "ne": set(), "lt": {"TypeError"}, "le": {"TypeError"}, "gt": {"TypeError"}, "ge": {"TypeError"},
            "sorted": {"TypeError"}}
 
@@ -117,6 +117,13 @@ def gen_cases(ctx, env, n):
             continue  # partial products may leave the float range (OverflowError / division by a zero that underflowed)
         kind = rng.choice(["convert", "convert", "convert", "add", "sub", "eq", "lt", "le", "gt", "sorted"])
         m1, m2 = pools.magnitude(rng), pools.magnitude(rng)
+        if cls == "all-disconnected" and rng.random() < 0.12:
+            # the other side is a level: so many decibels above 1 <unit nothing connects to>.  Ordering a quantity against it
+            # needs the same impossible conversion, and ends the same way (TypeError), in both argument orders and in sorted()
+            kind = "lt_level"
+            op = ["lt_level", model.enc_mag(abs(m1) if isinstance(m1, (int, float)) and m1 else 2), st, ["i", rng.choice([3, 20, -6])], ["i", 1], tt, rng.choice(["lt", "ge", "sorted"])]
+            cases.append((op, kind, cls, shape, True))
+            continue
         if kind == "convert":
             op = ["convert", model.enc_mag(m1), st, tt]
         elif kind == "sorted":
@@ -221,7 +228,7 @@ def run(ctx):
                 # == must say False and orderings must raise TypeError - for every magnitude, zero included
                 must = {"convert": ("raise", "ConversionNotFound"), "add": ("raise", "ConversionNotFound"), "sub": ("raise", "ConversionNotFound"),
                         "eq": ("ok", "False"), "lt": ("raise", "TypeError"), "le": ("raise", "TypeError"), "gt": ("raise", "TypeError"),
-                        "ge": ("raise", "TypeError"), "sorted": ("raise", "TypeError")}[kind]
+                        "ge": ("raise", "TypeError"), "sorted": ("raise", "TypeError"), "lt_level": ("raise", "TypeError")}[kind]
                 ctx.count("impossible_cases_with_a_required_outcome")
                 for mode, o in (("default", oa), ("-O", ob)):
                     if o != must and not (o[0] == "raise" and o[1] not in ALLOWED[kind]):
